@@ -58,6 +58,8 @@ def from_model(h, rng):
             steps.append({"a": "Tick", "d": rng.choice([UNIT, UNIT, UNIT - 2, UNIT + 1])})
         elif a == "Restart":
             steps.append({"a": "Restart"})
+        elif a == "ClaimGone":
+            steps.append({"a": "ClaimGone"})
         else:
             raise vlib.InfraError("unknown model action %r" % a)
     return steps
@@ -107,7 +109,15 @@ def with_fault(path, positions_faults, stale_at=()):
 
 def systematic(tier, rng):
     behs = []
-    for cfg in ({"startupTaint": True, "extRes": True}, {"startupTaint": False, "extRes": False}):
+    # the claim is deleted before its finalizer landed while the informer copy lags
+    for cfg in ({"startupTaint": True, "extRes": True, "taintVariant": 0},):
+        behs.append({"cfg": cfg, "steps": [{"a": "ClaimGone"}, {"a": "Rec", "stale": 1}, {"a": "Rec", "stale": 1}], "tag": "gone:0"})
+        for err in ("Server", "Conflict", "NotFound"):
+            behs.append({"cfg": cfg, "steps": [rec_step("finPatch", err=err), {"a": "ClaimGone"}, {"a": "Rec", "stale": 1}],
+                         "tag": "gone:1:" + err})
+            behs.append({"cfg": cfg, "steps": [rec_step("finPatch", err=err), {"a": "Rec"}, {"a": "Rec"}], "tag": "fin:" + err})
+    for cfg in ({"startupTaint": True, "extRes": True, "taintVariant": 0}, {"startupTaint": False, "extRes": False, "taintVariant": 0},
+                {"startupTaint": True, "extRes": False, "taintVariant": 1}, {"startupTaint": True, "extRes": True, "taintVariant": 2}):
         hp = happy_path(cfg)
         nrec = sum(1 for s in hp if s["a"] == "Rec")
         behs.append({"cfg": cfg, "steps": hp, "tag": "happy"})
@@ -152,7 +162,8 @@ def generate(run, nsim):
     hs = run.generate("Lifecycle", "Lifecycle_Gen.cfg", workers=1, simulate="num=%d" % nsim, depth=20, timeout=900)
     if not hs:
         raise vlib.InfraError("TLC generated no Lifecycle behaviours")
-    behs = [{"cfg": {"startupTaint": True, "extRes": True}, "steps": from_model(h, rng), "tag": "tlc-sim"} for h in hs]
+    behs = [{"cfg": {"startupTaint": True, "extRes": True, "taintVariant": rng.choice([0, 0, 1, 2])}, "steps": from_model(h, rng),
+             "tag": "tlc-sim"} for h in hs]
     behs += systematic(run.tier, rng)
     return behs
 
